@@ -16,6 +16,10 @@ Why(r) ==
       first == IF r.startVal # 0 THEN 1 ELSE 0            \* with StartWithVal the first YieldRef gets the start value
       Req(x) == {i \in DOMAIN F : F[i].x = x} IN
   IF r.kind # "ok" THEN r.kind
+  ELSE IF r.shape = "dying" THEN                          \* one caller alternating between targets that serve one request and complete, and a generator y_k = k
+         IF \E i \in DOMAIN r.dyingAns : r.dyingAns[i] # 101 THEN "a caller received an answer that was not the one yielded for its request"
+         ELSE IF r.liveAns # [i \in 1..(r.issued \div 2) |-> i] THEN "a caller received, from another target, an answer left over from a completed one (misrouted / out of order)"
+         ELSE "ok"
   ELSE IF r.shape = "fresh" THEN                          \* thousands of callers with one request each: the same rules through set comparisons
          IF Len(F) # r.issued THEN "a YieldFrom never returned"
          ELSE IF Len(R) # r.issued THEN "requests and YieldRefs do not match in number (lost or duplicated)"
